@@ -593,7 +593,7 @@ func (c pcase) runFreeValue() vfreeOut {
 func (c pcase) runFreeValueInner(out *vfreeOut) {
 	var E func(x, y proto.Message) bool
 	if c.Spec != nil {
-		E = c.Spec.build()
+		E = guarded(c.Spec.build())
 	}
 	var mu sync.Mutex
 	var calls []bool
